@@ -15,13 +15,65 @@ def uf_native(which):
                        'construction; non-trivial = contains at least two unions')
 
 
+class UfDeep:
+    """C05, totality on long histories: one chain of a million parent links (what a million equate_ calls build when the new element always
+    wins) and a mutable lookup of the bottom element, on the real Unification, in its own process with the default stack.  The Verus contracts
+    prove termination and the result for every chain, but a verifier does not model the stack: a recursive lookup verifies and still aborts."""
+
+    def __init__(self, which):
+        self.which = which
+        self.name = 'uf_deep_%d' % which
+        self.nat = uf_native(which)
+        self._r = None
+
+    def _go(self):
+        import subprocess
+        exe = self.nat.build()
+        return subprocess.run([exe, 'deep', '1000000'], stdout=subprocess.PIPE, stderr=subprocess.PIPE, text=True, timeout=600)
+
+    def sweep(self, tier):
+        if self._r is not None:
+            return self._r
+        import time
+        r = driver.PartResult(self.name, 'bounded')
+        t0 = time.time()
+        r.rule = ('one chain of 1,000,000 parent links built with union_roots_into on the real Unification<E>, then root(bottom) and root_const on a sample of elements: must return the top '
+                  'element and must not abort (own process, default 8 MiB stack); distinct = 1 history; non-trivial')
+        r.checker_cmd = 'uf_native deep 1000000'
+        try:
+            p = self._go()
+        except Exception as e:      # noqa
+            r.status, r.reason = 'undecided', 'native-build-or-timeout'
+            r.notes.append(str(e)[-800:])
+            self._r = r
+            return r
+        r.evaluations = 1
+        r.distinct_nontrivial = 1
+        r.exhaustive = True
+        if p.returncode == 0 and '"deep":"pass"' in p.stdout:
+            pass
+        else:
+            what = ('the process was killed by signal %d (stack exhausted?): %s' % (-p.returncode, p.stderr[-300:].strip())) if p.returncode < 0 or p.returncode >= 128 else (p.stdout.strip()[-400:] or p.stderr[-400:])
+            r.status = 'violation'
+            r.failures.append({'obligation': 'Unification::root on a chain of 1,000,000 links: ' + what[:200], 'function': 'Unification::root', 'message': what + ' -- deep-chain', 'input': 'deep 1000000',
+                               'native': self.name, 'class': 'deep-chain'})
+        r.wall_s = time.time() - t0
+        self._r = r
+        return r
+
+    def replay(self, inp):
+        p = self._go()
+        ok = p.returncode == 0 and '"deep":"pass"' in p.stdout
+        return ({'replay': 'pass' if ok else 'fail', 'exit': p.returncode, 'out': (p.stdout + p.stderr)[-300:]}, None)
+
+
 def C05():
     from units import uf
     gn = gen_native()
     from units import gen
     parts = [ProofPart(uf, 'UF(eqlog-runtime)', {'which': 0}, native=uf_native(0)),
              ProofPart(uf, 'UF(eqlog)', {'which': 1}, native=uf_native(1)),
-             ProofPart(gen, 'GEN', native=gn)]
+             ProofPart(gen, 'GEN', native=gn), UfDeep(0), UfDeep(1)]
     return {
         'level': 'proof', 'parts': parts,
         'samples': uf.SAMPLES, 'own_classes': C05_CLASSES,
@@ -503,7 +555,7 @@ def C18():
 
 PROPERTIES = {'C02': C02, 'C15': C15, 'C09': C09, 'C19': C19, 'C13': C13, 'C20': C20, 'C01': C01, 'C03': C03, 'C04': C04, 'C05': C05, 'C06': C06, 'C07': C07, 'C14': C14, 'C08': C08, 'C16': C16, 'C18': C18, 'C11': C11}
 
-NATIVES = {'uf_0': lambda: uf_native(0), 'uf_1': lambda: uf_native(1), 'rt_wb': lambda: rt_native('wb'), 'rt_pt': lambda: rt_native('pt'), 'rt_ts': lambda: rt_native('ts'), 'sn': sn_native, 'sd': sd_native, 'gen': gen_native, 'emit_sn': emit_sn, 'gen_twice': GenTwice, 'compile_twice': compile_twice, 'gen_both_builds': GenBothBuilds, 'compile_ok': compile_ok}
+NATIVES = {'uf_0': lambda: uf_native(0), 'uf_1': lambda: uf_native(1), 'rt_wb': lambda: rt_native('wb'), 'rt_pt': lambda: rt_native('pt'), 'rt_ts': lambda: rt_native('ts'), 'sn': sn_native, 'sd': sd_native, 'gen': gen_native, 'emit_sn': emit_sn, 'gen_twice': GenTwice, 'compile_twice': compile_twice, 'gen_both_builds': GenBothBuilds, 'compile_ok': compile_ok, 'uf_deep_0': lambda: UfDeep(0), 'uf_deep_1': lambda: UfDeep(1)}
 
 
 def replay(pid, path):
